@@ -42,8 +42,11 @@ Lattice ==
      nc \in {1, 2}, lk \in BOOLEAN, ly \in 0..2, cp \in {1, 2}, st \in {"fixed", "cab", "minsize"}, np \in {0, 2}}
 OneConfig == [nc |-> 2, lookups |-> TRUE, layers |-> 2, capn |-> 2, strat |-> "fixed", narity |-> 2, npi |-> 2,
               q |-> 2, nfinal |-> 2, nconst |-> 2, nsigma |-> 2, nwires |-> 3, nzs |-> 2, npp |-> 2, nquot |-> 4, nlook |-> 4]
+\* sub-lattice of the quick tier
+LatticeQuick == {c \in Lattice : c.layers # 1 /\ c.strat # "cab"}
 Configs == IF ConfigSet = "env" THEN {c : c \in Range(ndJsonDeserialize(IOEnv.CFGS))}
-           ELSE IF ConfigSet = "one" THEN {OneConfig} ELSE Lattice
+           ELSE IF ConfigSet = "one" THEN {OneConfig}
+           ELSE IF ConfigSet = "quick" THEN LatticeQuick ELSE Lattice
 
 StratLen(cfg) == IF cfg.strat = "fixed" THEN 1 + cfg.narity ELSE IF cfg.strat = "cab" THEN 3 ELSE 2
 CapLen(cfg) == cfg.capn * H
